@@ -6,7 +6,7 @@
    Model/Connection.v + ConnProps.v: the connect delay inside the reconnect sequence. *)
 From FMP Require Import Base.Bytes Base.Lts Model.Timer Model.TimerConc Model.Connection Model.ConnProps Model.ConnCfg Model.TimerCfg
      Proofs.TimerProofs Proofs.TimerConcProofs Proofs.ConnProofs Proofs.ConnCfgProofs.
-From FMP Require Import Model.Paths Proofs.PathProofs.
+From FMP Require Import Model.Paths Proofs.PathsC16.
 Open Scope Z_scope.
 
 (* ---------- the delay chosen ---------- *)
@@ -79,7 +79,7 @@ Proof. exact (conj timerfacts_generated_ok (conj ccfg_generated_ok eq_refl)). Qe
 
 (* on every path through the function body as it is in the source now (regenerated into Generated.body_census, enumerated by Model/Paths.v) of Connection.doReconnect: a delay timer is started at most once, the requested fire-now is applied after the start and before the wait, the wait precedes the retry loop *)
 Theorem C16_source_delay_paths : doreconnect_paths = true.
-Proof. exact paths_doreconnect. Qed.
+Proof. exact paths_doreconnect_delay. Qed.
 
 Print Assumptions C16_random_delay_in_window.
 Print Assumptions C16_wait_immediate_when_idle.
